@@ -1178,6 +1178,15 @@ impl<'a> GeneratorState<'a> {
     }
 
     pub fn generate_statement(&mut self, code: &'a StatementLoc<'a>) -> Result<(), Error> {
+        // At the entry of a function nothing is known about the processor flags:
+        // forget what the previously generated function left behind
+        if let Some(f) = &self.current_function {
+            if self.functions_code.get(f).map_or(false, |c| c.is_empty()) {
+                self.flags = FlagsState::Unknown;
+                self.carry_flag_ok = false;
+            }
+        }
+
         // Include C source code into generated asm
         // debug!("{:?}, {}, {}, {}", expr, pos, self.last_included_position, self.last_included_line_number);
         if self.insert_code {
